@@ -368,6 +368,19 @@ func timedOracle(name string, check func(cScenario, cResult) (string, string)) f
 				}
 			}
 		}
+		if name == "c12" {
+			for _, v6 := range []bool{false, true} {
+				for _, rerr := range []bool{false, true} {
+					line := fmt.Sprintf("schedule-probe v6=%v read-error=%v", v6, rerr)
+					cliNoteLine(line)
+					res.Evaluations++
+					res.Tags["schedule-after-aborted-call-or-read-error"]++
+					if w := cliScheduleProbe(v6, rerr); w != "" {
+						res.fail(Failure{Oracle: name, Input: line, What: w, Class: "schedule-depends-on-history"})
+					}
+				}
+			}
+		}
 		if thorough {
 			for _, v6 := range []bool{false, true} {
 				enumTimed(v6)(func(l string) {
